@@ -16,7 +16,7 @@ META = {
             "wf_check runs on every tree the implementation builds; recorded pairs are compared with the all-pairs scan.",
     "note": "Trusted: Coq kernel, extraction (ExtrOcamlBasic), the C++ harnesses reading Collider's private arrays, integer-valued boxes standing for doubles (order-isomorphic embedding, +-2^60 for +-infinity). "
             "Not modelled: C++ int overflow in RangeEnd for n > 2^29 leaves; "
-            "BuildInternalBoxes' atomic arrival counters (modelled as order-independent unions); MortonCode's floating-point part; Collider::Transform/UpdateBoxes are covered only through the box-level theorem (any boxes).",
+"BuildInternalBoxes' atomic arrival counters (modelled as order-independent unions; exercised in the par and sim builds above the thresholds read from collider.h); MortonCode's floating-point part; Collider::Transform/UpdateBoxes are covered only through the box-level theorem (any boxes).",
 }
 
 
@@ -136,19 +136,81 @@ def transformed_boxes(boxes):
 
 def brute(c, boxes=None):
     out = set()
+    bx = boxes if boxes is not None else c["boxes"]
     for q in range(c["m"]):
-        for l, b in enumerate(boxes if boxes is not None else c["boxes"]):
-            if c["self"] and q == l:
-                continue
-            if c["kind"] == 0:
-                a = c["queries"][6 * q:6 * q + 6]
-                ov = all(b[k] <= a[k + 3] and b[k + 3] >= a[k] for k in range(3))
-            else:
-                px, py = c["queries"][2 * q:2 * q + 2]
-                ov = b[0] <= px <= b[3] and b[1] <= py <= b[4]
-            if ov:
+        if c["kind"] == 0:
+            a0, a1, a2, a3, a4, a5 = c["queries"][6 * q:6 * q + 6]
+            hit = [l for l, b in enumerate(bx) if b[0] <= a3 and b[3] >= a0 and b[1] <= a4 and b[4] >= a1 and b[2] <= a5 and b[5] >= a2]
+        else:
+            px, py = c["queries"][2 * q:2 * q + 2]
+            hit = [l for l, b in enumerate(bx) if b[0] <= px <= b[3] and b[1] <= py <= b[4]]
+        for l in hit:
+            if not (c["self"] and q == l):
                 out.add((q, l))
     return out
+
+
+def par_thresholds():
+    """The sizes at which collider.h switches to parallel execution, read from the source:
+    kSequentialThreshold (queries), and the literal thresholds of the autoPolicy calls in the
+    constructor (CreateRadixTree) and UpdateBoxes (BuildInternalBoxes)."""
+    src = open(os.path.join(vp.REPO, "src/collider.h")).read()
+    m = re.search(r"constexpr\s+int\s+kSequentialThreshold\s*=\s*(\d+)\s*;", src)
+    lits = [int(float(x)) for x in re.findall(r"autoPolicy\(NumInternal\(\),\s*([0-9.e]+)\)", src)]
+    return (int(m.group(1)) if m else None), sorted(lits)
+
+
+def gen_large(rng, kseq, lits, thorough):
+    """Leaf and query counts on both sides of every parallel threshold of collider.h: these are the
+    only cases in which the par / sim builds run CreateRadixTree, BuildInternalBoxes (atomic arrival
+    counters), Transform and the query loop in parallel."""
+    cases = []
+    sizes = []
+    for t in lits:
+        sizes += [t + 1, t + 2]            # NumInternal = n - 1 = t (sequential) / t + 1 (parallel)
+    plan = []
+    for i, n in enumerate(sizes):
+        plan.append((n, kseq + 1 if i % 2 else kseq, i % 3 == 1))
+    plan.append((max(lits[0] + 400, kseq + 300), 0, False))        # self collision, m = n > kSequentialThreshold
+    if thorough:
+        for _ in range(12):
+            plan.append((rng.choice([lits[0] + rng.randrange(2, 3000), lits[-1] + rng.randrange(2, 4000)]), kseq + rng.randrange(1, 400), rng.random() < 0.3))
+    for i, (n, m, point) in enumerate(plan):
+        mode = i % 4
+        if mode == 0:
+            codes = [rng.randrange(2**30) for _ in range(n)]
+        elif mode == 1:
+            codes = [rng.randrange(16) for _ in range(n)]                  # long runs of identical codes
+        elif mode == 2:
+            base = rng.randrange(2**18) << 12
+            codes = [base + rng.randrange(64) for _ in range(n)]
+        else:
+            k = n // 3
+            codes = list(range(k)) + [k + 7] * (n - k)
+        codes.sort()
+        L = 40 + 20 * (i % 3)
+        boxes = []
+        for _ in range(n):
+            lo = [rng.randrange(L) for _ in range(3)]
+            hi = lo[:] if rng.random() < 0.15 else [a + rng.randrange(4) for a in lo]
+            boxes.append(lo + hi)
+        self_ = m == 0
+        kind = 1 if point and not self_ else 0
+        if self_:
+            m, queries = n, [x for b in boxes for x in b]
+        else:
+            queries = []
+            for _ in range(m):
+                if kind == 0:
+                    lo = [rng.randrange(-1, L + 1) for _ in range(3)]
+                    hi = [a + rng.randrange(5) for a in lo]
+                    if rng.random() < 0.03:
+                        lo[rng.randrange(3)] = -(1 << 60)
+                    queries += lo + hi
+                else:
+                    queries += [rng.randrange(-1, L + 2), rng.randrange(-1, L + 2)]
+        cases.append(dict(id=100000 + i, n=n, m=m, self=int(self_), kind=kind, codes=codes, boxes=boxes, queries=queries))
+    return cases
 
 
 def run(cx):
@@ -184,6 +246,25 @@ def run(cx):
                   pow2(kinit) and pow2(kmult) and kmult >= 2 and kinit <= 2**20,
                   "kInitialLength=%s kLengthMultiple=%s: the binary search in RangeEnd is only proved for powers of two" % (kinit, kmult))
     cases = gen_cases(rng, cx.pick(1500, 40000), True, kinit)
+    kseq, lits = par_thresholds()
+    cx.cov["parallel_thresholds_from_source"] = {"kSequentialThreshold": kseq, "autoPolicy(NumInternal(), .)": lits}
+    cx.obligation("translate:collider.h parallel thresholds", kseq is not None and len(lits) == 2 and 2 <= lits[0] <= lits[1] <= 10**6,
+                  "could not read kSequentialThreshold / the autoPolicy thresholds of the constructor and UpdateBoxes from collider.h: %r %r" % (kseq, lits))
+    # BuildInternalBoxes' arrival protocol (what makes the bottom-up box pass schedule independent: the model's
+    # order-independent union presupposes that exactly the second arrival at a node computes its box):
+    # every access to counter_ is the one atomic fetch-add whose first arrival returns; AtomicAdd<int> is an atomic RMW
+    csrc = open(os.path.join(vp.REPO, "src/collider.h")).read()
+    body = re.search(r"struct BuildInternalBoxes \{(.*?)\n\};", csrc, flags=re.S)
+    body = body.group(1) if body else ""
+    usrc = open(os.path.join(vp.REPO, "src/utils.h")).read()
+    uses = re.findall(r"counter_\[[^\]]*\]", body)
+    cx.obligation("translate:collider.h BuildInternalBoxes arrival counter (atomic fetch-add, first arrival returns, second computes the union)",
+                  len(uses) == 1 and re.search(r"if\s*\(AtomicAdd\(counter_\[internal\],\s*1\)\s*==\s*0\)\s*return;", body) is not None
+                  and re.search(r"inline int AtomicAdd\(int& target, int add\)\s*\{\s*return AtomicRef<int>\(target\)\.fetch_add\(add\);", usrc) is not None
+                  and re.search(r"Vec<int> counter\(NumInternal\(\), 0\);", csrc) is not None,
+                  "BuildInternalBoxes no longer matches the recognised arrival protocol (accesses to counter_: %r)" % uses)
+    large = gen_large(random.Random(cx.seed * 31337 + 1414), kseq or 512, lits if len(lits) == 2 else [1000, 10000], cx.tier == "thorough")
+    cases += large
     lines = ["CONST %d %d" % (kinit, kmult), "SPREAD"] + [case_line(c) for c in cases]
     inp = "\n".join(lines) + "\n"
     kl = lambda l: l.split()[1] if l.startswith("CASE") else None
@@ -268,6 +349,59 @@ def run(cx):
             seen.add(key)
             if len(want) > 0 and len(want) < c["m"] * c["n"]:
                 nontriv += 1
+    # ---- parallel execution of the same code: real TBB threads (par) and seeded schedules (sim) on the
+    # cases above the thresholds; everything the sequential run printed must come out again (tree and
+    # boxes identical, the same set of pairs, each once)
+    seq_cert = {l.split()[1]: l for l in cert_lines}
+    lines_large = [case_line(c) for c in large]
+    par_runs = 0
+    for variant, envs in (("par", [None]), ("sim", [{"VERIF_SCHED_SEED": str(cx.seed * 100 + k)} for k in range(cx.pick(2, 6))])):
+        try:
+            exe_p = vp.build_harness("c14_bvh", variant, link_lib=False, extra=["-DC14_PARALLEL"])
+        except vp.BuildError as e:
+            cx.broke("corr:C14/%s-build" % variant, "harness does not build in the %s variant: %s" % (variant, str(e)[-300:]))
+            continue
+        for env in envs:
+            out_p, crashes_p = vp.run_cases(exe_p, lines_large, kl, ko, timeout=1800, env=dict(os.environ, **env) if env else None)
+            tag = variant + ("" if not env else "/seed=" + env["VERIF_SCHED_SEED"])
+            for cl, rc, err in crashes_p:
+                cx.violation("collider-crash-parallel", "Collider build/query crashed or hung (rc=%s) in the %s run: %s" % (rc, tag, err[-200:]), {"case": cl[:2000], "run": tag})
+            got_r, got_c, got_a = {}, {}, {}
+            for l in out_p.splitlines():
+                if l.startswith("R "):
+                    got_r[l.split(" ", 2)[1]] = l
+                elif l.startswith("CERT "):
+                    got_c[l.split()[1]] = l
+                elif l.startswith("A "):
+                    t = l.split()
+                    got_a[t[1]] = list(zip(map(int, t[2::2]), map(int, t[3::2])))
+            for c in large:
+                k = str(c["id"])
+                par_runs += 1
+                ls, lp = impl.get(k), got_r.get(k)
+                if ls is None or lp is None:
+                    if not any(k == (kl(cl) or "") for cl, _, _ in crashes_p):
+                        cx.broke("corr:C14/parallel#case %s" % k, "no output in the %s run" % tag)
+                    continue
+                rep = {"case": case_line(c)[:4000] + " ...", "run": tag, "n": c["n"], "m": c["m"]}
+                if ls.split(" pairs")[0] != lp.split(" pairs")[0] or seq_cert.get(k) != got_c.get(k):
+                    cx.violation("tree-or-boxes-differ-in-parallel", "radix tree / node boxes built in the %s run differ from the sequential run (n=%d)" % (tag, c["n"]), rep)
+                tp = lp.split(" pairs")[1].split()
+                gp = list(zip(map(int, tp[0::2]), map(int, tp[1::2])))
+                ts = ls.split(" pairs")[1].split()
+                gs = sorted(zip(map(int, ts[0::2]), map(int, ts[1::2])))
+                if gp != gs:
+                    sp, ss = set(gp), set(gs)
+                    cx.violation("pairs-differ-in-parallel", "pairs recorded in the %s run differ from the sequential run (n=%d, m=%d): missing %s, extra %s, duplicates %d"
+                                 % (tag, c["n"], c["m"], sorted(ss - sp)[:4], sorted(sp - ss)[:4], len(gp) - len(sp)), rep)
+                if not c["self"]:
+                    for suf in (".u", ".t"):
+                        if seq_cert.get(k + suf) != got_c.get(k + suf) or sorted(after.get(k + suf, [])) != got_a.get(k + suf):
+                            cx.violation("pairs-differ-in-parallel-after-" + ("updateboxes" if suf == ".u" else "transform"),
+                                         "after %s the %s run differs from the sequential run (node boxes or recorded pairs; n=%d, m=%d)"
+                                         % ("UpdateBoxes" if suf == ".u" else "the axis-aligned Transform", tag, c["n"], c["m"]), rep)
+    cx.cov["parallel_runs"] = {"cases_above_thresholds": len(large), "case_runs": par_runs,
+                               "sizes": [(c["n"], c["m"], c["self"], c["kind"]) for c in large][:24]}
     cx.cov.update({"evaluations": len(cases), "distinct_nontrivial": nontriv,
                    "rule": "seeded generator over sorted Morton code multisets x integer boxes x queries; non-trivial = some but not all (query,leaf) pairs overlap; distinct by full case content",
                    "distribution": dist, "correspondence_mismatches": mism,
